@@ -125,6 +125,60 @@ theorem validate_always_first {Spec : Type} (schemaValid : Spec → Bool)
   unfold prepareK
   split <;> rfl
 
+/-! ## a prepare never leaves the process unable to prepare (kr8s' class registry, fix F12) -/
+
+/-- whatever `apiVersion` a ResourceFunction names, the registry stays one every later lookup can walk -/
+theorem registry_stays_usable (reg : Registry) (av : String) (h : lookupOk reg = true) :
+    lookupOk (prepareApi reg av).1 = true := by
+  unfold prepareApi
+  split
+  · exact h
+  · split
+    · exact h
+    · rename_i hs
+      simp only [h, Bool.not_true, Bool.false_eq_true, if_false]
+      simp only [lookupOk, List.all_cons, Bool.and_eq_true]
+      exact ⟨by simp only [unpackOk, decide_eq_true_eq]; omega, h⟩
+
+/-- for every sequence of prepares in one process: none raises, and the registry is usable afterwards -/
+theorem prepare_sequence_never_raises : ∀ (avs : List String) (reg : Registry), lookupOk reg = true →
+    lookupOk (prepareApiSeq prepareApi reg avs).1 = true ∧ ApiR.raised ∉ (prepareApiSeq prepareApi reg avs).2
+  | [], reg, h => ⟨h, by simp [prepareApiSeq]⟩
+  | av :: rest, reg, h => by
+    have h1 := registry_stays_usable reg av h
+    obtain ⟨ih1, ih2⟩ := prepare_sequence_never_raises rest (prepareApi reg av).1 h1
+    simp only [prepareApiSeq]
+    refine ⟨ih1, ?_⟩
+    simp only [List.mem_cons, not_or]
+    refine ⟨?_, ih2⟩
+    unfold prepareApi
+    split
+    · simp
+    · split
+      · simp
+      · split <;> simp
+
+/-- …so an ordinary function prepared after any such sequence is prepared, not failed -/
+theorem ordinary_prepare_after_any_sequence (avs : List String) (av : String)
+    (hav : av ≠ "") (hs : slashes av ≤ 1) :
+    (prepareApi (prepareApiSeq prepareApi [] avs).1 av).2 = .prepared := by
+  have h := (prepare_sequence_never_raises avs [] rfl).1
+  generalize (prepareApiSeq prepareApi [] avs).1 = reg at h
+  have : ¬ slashes av > 1 := by omega
+  simp [prepareApi, hav, h, this]
+
+/-- before F12 one function with `apiVersion: a/b/c` made the next prepare raise -/
+theorem unrepaired_registry_poisoned :
+    (prepareApiSeq prepareApiOld [] ["a/b/c", "v1"]).2 = [.prepared, .raised] := by decide
+
+/-- the retry delay of an expected outcome is a whole number or rejected — never an exception (fix F13) -/
+theorem retry_delay_total (n : Option Int) : (∃ d, retryDelay n = some d) ∨ retryDelay n = none := by
+  cases h : retryDelay n with
+  | none => exact Or.inr rfl
+  | some d => exact Or.inl ⟨d, rfl⟩
+
+theorem retry_delay_integral_float : retryDelay (some 8) = some 1 ∧ retryDelay (some 20) = none := by decide
+
 /-! ## non-vacuity -/
 
 open Cel in
